@@ -233,7 +233,18 @@ func (s *natSys) Apply(op string) (obs, sig, msg string) {
 		vnet.ZZIPForm, vnet.ZZStamp = 0, time.Time{}
 		s.lastOpAt = zzvsched.Elapsed()
 		if s.cfg.oneToOne > 0 {
-			return s.outbound1to1(src, dst, nsrc, ndst, data, keep, ok, err)
+			// 1:1 translation keeps no state, so BFS states merge at depth 1 and the alternation above never
+			// reaches the second representation: judge the same datagram in the other representation too
+			obs, sig, msg := s.outbound1to1(src, dst, nsrc, ndst, data, keep, ok, err)
+			if sig == "" {
+				vnet.ZZIPForm = 20 - (4 + 12*(s.nops%2))
+				nsrc2, ndst2, data2, ok2, err2 := s.z.Outbound(src, dst, payload)
+				vnet.ZZIPForm = 0
+				if _, sig2, msg2 := s.outbound1to1(src, dst, nsrc2, ndst2, data2, keep, ok2, err2); sig2 != "" {
+					return obs, sig2, msg2 + " (addresses in the other slice representation)"
+				}
+			}
+			return obs, sig, msg
 		}
 		if err != nil || !ok {
 			liveN := 0
@@ -353,7 +364,16 @@ func (s *natSys) Apply(op string) (obs, sig, msg string) {
 		vnet.ZZIPForm, vnet.ZZStamp = 0, time.Time{}
 		s.lastOpAt = zzvsched.Elapsed()
 		if s.cfg.oneToOne > 0 {
-			return s.inbound1to1(src, dst, nsrc, ndst, data, keep, err)
+			obs, sig, msg := s.inbound1to1(src, dst, nsrc, ndst, data, keep, err)
+			if sig == "" && s.router == nil {
+				vnet.ZZIPForm = 20 - (4 + 12*(s.nops%2))
+				nsrc2, ndst2, data2, err2 := s.z.Inbound(src, dst, payload)
+				vnet.ZZIPForm = 0
+				if _, sig2, msg2 := s.inbound1to1(src, dst, nsrc2, ndst2, data2, keep, err2); sig2 != "" {
+					return obs, sig2, msg2 + " (addresses in the other slice representation)"
+				}
+			}
+			return obs, sig, msg
 		}
 		fwd := err == nil
 		obs = fmt.Sprintf("i:%v", fwd)
